@@ -47,7 +47,7 @@ INFORMATIONAL = ['unknown-operand-type', 'unknown-position', 'instruction-withou
 KEYWORDS = sorted(R.KEYWORDS)
 MIN_VERSIONS = ['0.3.0', '0.3.1', '0.3.10', '0.4.0', '0.4.2', '0.4.3a1', '0.4.3b1', '0.4.3b2', '0.4.3rc1', '0.4.3', '0.4.4',
                 '0.4.10', '0.5.0', '0.10.0', '1.0.0', '0.2.9', '0.2.10', '0.1.0', '0.04.2', '10.0.0', '0.3.0b1']
-ISA_VERSIONS = ['1.9.0', '1.10.0', '1.2.3', '0.9.12', '2.0.0', '1.10.1', '1.09.0']
+ISA_VERSIONS = ['1.9.0', '1.10.0', '1.2.3', '0.9.12', '2.0.0', '1.10.1', '1.09.0', '2.0.0rc1', '2.0.0a1', '1.10.0b2']
 OPS = ['==', '>=', '<=', '>', '<']
 
 
@@ -197,6 +197,10 @@ def _cases(draw, tier):
     else:
         op = draw(st.sampled_from(OPS))
         rv = draw(st.sampled_from(ISA_VERSIONS + [ver]))
+        m_pre = re.match(r'^(\d+\.\d+\.\d+)(?:a|b|rc)\d+$', ver)
+        if m_pre and draw(st.booleans()):
+            rv = m_pre.group(1)          # a pre-release against the release it precedes
+            op = draw(st.sampled_from(['<', '<', '<', '<=', '>', '>=', '==']))
         req = f'#require "{req_name} {op} {rv}"'
     misspelt = None
     if draw(st.integers(0, 5)) == 0:
@@ -215,6 +219,11 @@ def _cases(draw, tier):
             misspelt = None
     case = {'kind': 'require', 'isa': cfg, 'fmt': fmt, 'require': req, 'req_name': req_name, 'op': op, 'req_version': rv,
             'stem': stem, 'isa_version': ver, 'misspelt': misspelt}
+    if draw(st.integers(0, 3)) == 0:
+        # a preprocessor symbol named like (a word of) the language: directive lines are not subject to substitution
+        words = [w for w in re.split(r'[^A-Za-z0-9_]+', req_name) if len(w) >= 2 and not w[0].isdigit()]
+        if words:
+            case['define_word'] = draw(st.sampled_from(words))
     if draw(st.integers(0, 2)) == 0:
         # an earlier, satisfied requirement for the same language must not excuse a later one
         case['first'] = draw(st.sampled_from([f'#require "{name}"', f'#require "{name} >= 0.0.1"', f'#require "{name} == {ver}"']))
@@ -265,6 +274,8 @@ def execute(case, ctx):
                 extra_files['lib.asm'] = case['require'] + '\n.byte 2\n'
             else:
                 src = case['first'] + '\n' + src
+        if case.get('define_word'):
+            src = f"#define {case['define_word']} 7\n" + src
         if case.get('stem'):
             isa_name = case['stem']
             fname = case['stem'] + '.' + fname.rsplit('.', 1)[1]
@@ -286,7 +297,8 @@ def execute(case, ctx):
             expect = None       # whether a misspelt but satisfied requirement is an error is not stated
         tag = 'require:' + ('name-mismatch' if case['req_name'] != isa_name else str(case['op'])) + \
               ('/after-an-earlier-require' if case.get('first') else '') + ('/language-named-after-the-file' if case.get('stem') else '') + \
-              ('/misspelt-' + case['misspelt'] if case.get('misspelt') else '')
+              ('/misspelt-' + case['misspelt'] if case.get('misspelt') else '') + \
+              ('/symbol-named-like-the-language' if case.get('define_word') else '')
     files = {fname: text, 'p.asm': src}
     if kind == 'require':
         files.update(extra_files)
